@@ -144,10 +144,11 @@ bucket_fromBytes(PyObject *oself, PyObject *state)
     keys = BTree_Realloc(self->keys, sizeof(KEY_TYPE)*len);
     if (keys == NULL)
       goto err;
+    /* the old block is gone, whatever happens next */
+    self->keys = keys;
     values = BTree_Realloc(self->values, sizeof(VALUE_TYPE)*len);
     if (values == NULL)
       goto err;
-    self->keys = keys;
     self->values = values;
     self->size = len;
   }
